@@ -119,6 +119,27 @@ pub fn run_flags(args: &[&str]) -> String {
     )
 }
 
+/// HDRMOD word op rc: parse a header with this flags word, replace opcode and response code through the accessors, serialise
+pub fn run_hdrmod(args: &[&str]) -> String {
+    let v = match nums(args, 3) {
+        Some(v) => v,
+        None => return "BADCASE".into(),
+    };
+    let mut d = vec![0x12u8, 0x34];
+    d.extend_from_slice(&v[0].to_be_bytes());
+    d.extend_from_slice(&[0u8; 8]);
+    let mut p = match Packet::parse(&d) {
+        Ok(p) => p,
+        Err(e) => return err_line(&e),
+    };
+    *p.opcode_mut() = OPCODE::from(v[1]);
+    *p.rcode_mut() = RCODE::from(v[2]);
+    match p.build_bytes_vec() {
+        Ok(b) => format!("OK {}", bytes_to_hex(&b)),
+        Err(e) => err_line(&e),
+    }
+}
+
 pub fn run_buildhdr(args: &[&str]) -> String {
     let v = match nums(args, 4) {
         Some(v) => v,
